@@ -462,3 +462,57 @@ pub fn nominal(epochs: usize, slack: usize) -> Vec<Ev> {
     ticks(&mut s, 1);
     s
 }
+
+/// Vacuity guard for the oracle: on the unchanged tree the reference aggregator accepts everything
+/// the signer publishes, so its rejecting side is exercised here with publications the harness
+/// forges from a genuine one (the signer is not involved). Returns the verdicts; any unexpected one is
+/// a machinery error.
+pub fn reference_selfcheck(scratch: &Path, fixture: &MithrilFixture) -> Result<Value, String> {
+    use mithril_common::entities::ProtocolMessagePartKey;
+    use mithril_signer::services::SignaturePublisher;
+    let dir = fresh_dir(scratch);
+    let rt = tokio::runtime::Builder::new_current_thread().enable_all().build().expect("tokio runtime");
+    let res = rt.block_on(async {
+        let mut w = World::new(dir.clone(), fixture).await;
+        let mut log = vec![];
+        for ev in nominal(4, 0) {
+            apply(&mut w, &ev, &mut log).await;
+        }
+        let agg = w.outside.agg.clone();
+        let last = agg.with(|st| st.publications.last().cloned()).ok_or("the nominal schedule published nothing")?;
+        let submit = |entity: SignedEntityType, sig: mithril_common::entities::SingleSignature, msg: mithril_common::entities::ProtocolMessage| {
+            let agg = agg.clone();
+            async move {
+                let _ = agg.publish(&entity, &sig, &msg).await;
+                agg.with(|st| st.publications.last().map(|p| p.accepted).unwrap_or(false))
+            }
+        };
+        let mut verdicts = serde_json::Map::new();
+        // the genuine publication once more: accepted
+        let genuine = submit(last.entity.clone(), last.signature.clone(), last.message.clone()).await;
+        verdicts.insert("genuine_signature_resubmitted".into(), json!(if genuine { "accepted" } else { "rejected" }));
+        // attributed to another registered party
+        let other = w.fixture.signers_with_stake()[1].party_id.clone();
+        let mut s = last.signature.clone();
+        s.party_id = other;
+        let v1 = submit(last.entity.clone(), s, last.message.clone()).await;
+        verdicts.insert("attributed_to_another_registered_party".into(), json!(if v1 { "accepted" } else { "rejected" }));
+        // over another message
+        let mut m = last.message.clone();
+        m.set_message_part(ProtocolMessagePartKey::CurrentEpoch, "4242".to_string());
+        let v2 = submit(last.entity.clone(), last.signature.clone(), m).await;
+        verdicts.insert("submitted_with_another_message".into(), json!(if v2 { "accepted" } else { "rejected" }));
+        // one epoch later: other keys, stake distribution and parameters are in force
+        w.next_epoch().await;
+        let v3 = submit(last.entity.clone(), last.signature.clone(), last.message.clone()).await;
+        verdicts.insert("submitted_one_epoch_later".into(), json!(if v3 { "accepted" } else { "rejected" }));
+        w.node = None;
+        if !genuine || v1 || v2 || v3 {
+            return Err(format!("reference aggregator self-check failed: {verdicts:?}"));
+        }
+        Ok(Value::Object(verdicts))
+    });
+    drop(rt);
+    let _ = std::fs::remove_dir_all(&dir);
+    res
+}
